@@ -167,7 +167,19 @@ def extract_reuse_info(text: str) -> ReuseInfo:
         for pattern in _COPYRIGHT_PATTERNS:
             match = pattern.search(line)
             if match is not None:
-                copyright_matches.add(match.groupdict()["copyright"].strip())
+                notice = match.groupdict()["copyright"].strip()
+                # Like find_spdx_tag: if the line is framed with ASCII art,
+                # strip the mirrored comment prefix from the end. Require a
+                # blank before it, so that a holder that merely ends in the
+                # comment character ('# Copyright Team C#') is left alone.
+                suffix = line[: match.start()].strip()[::-1]
+                if (
+                    suffix
+                    and notice.endswith(suffix)
+                    and notice[: -len(suffix)][-1:].isspace()
+                ):
+                    notice = notice[: -len(suffix)].strip()
+                copyright_matches.add(notice)
                 break
 
     return ReuseInfo(
